@@ -21,12 +21,36 @@ import numpy as np
 
 from harness.core import MachineryError, REPO, b2f, f2b, flist, ilist, parse_flist
 
-MODEL_MODULES = ['SkyllhModel.Model.Rng', 'SkyllhModel.Model.RngDeep']
+MODEL_MODULES = ['SkyllhModel.Model.Rng', 'SkyllhModel.Model.RngDeep', 'SkyllhModel.Model.RngR7']
+
+# which Python callables have an executable Lean counterpart that the theorems are about AND run(ctx) compares with them
+MODEL_MAP = {
+    'skyllh/core/random.py::RandomStateService.__init__': ['RngR7.mk', 'RngR7.intCast', 'RngR7.npSeed'],
+    'skyllh/core/random.py::RandomStateService.reseed': ['RngR7.reseed', 'RngR7.runOps'],
+    'skyllh/core/random.py::RandomStateService.random': ['RngR7.setRandom', 'RngR7.runOpsX'],
+    'skyllh/core/random.py::RandomChoice.__init__': ['Rng.construct', 'Rng.cdf'],
+    'skyllh/core/random.py::RandomChoice._assert_items': ['Rng.validateItems'],
+    'skyllh/core/random.py::RandomChoice._assert_probabilities': ['Rng.validateProbs'],
+    'skyllh/core/random.py::RandomChoice.__call__': ['Rng.chooseCoded', 'Rng.idxsCoded', 'Rng.chooseSpec', 'Rng.search', 'Rng.scatter'],
+    'skyllh/core/analysis.py::Analysis.generate_signal_events': ['RngR7.generateSignalEvents', 'RngR7.injectAll', 'Rng.sigMean'],
+    'skyllh/core/analysis.py::Analysis.generate_pseudo_data': ['RngR7.generatePseudoData'],
+    'skyllh/core/analysis.py::Analysis.do_trial': ['Rng.doTrial', 'Rng.doTrialE'],
+    'skyllh/core/analysis.py::Analysis.do_trials': ['Rng.doTrials', 'Rng.doTrialsPost', 'Rng.parTrials'],
+    'skyllh/core/multiproc.py::parallelize': ['Rng.parTrials', 'Rng.workerSeeds', 'Rng.chunkSizes'],
+    'skyllh/core/multiproc.py::get_ncpu': ['Rng.getNcpu'],
+    'skyllh/core/minimizer.py::Minimizer.minimize': ['Rng.minimizeM', 'Rng.restartLoop', 'Rng.clipTo'],
+    'skyllh/core/parameters.py::ParameterSet.generate_random_floating_param_initials': ['Rng.randInitials'],
+    'skyllh/core/utils/analysis.py::extend_trial_data_file': ['Rng.extendFile', 'Rng.extendSeed', 'Rng.nextSeed', 'Rng.extendLabels'],
+    'skyllh/core/utils/analysis.py::create_trial_data_file': ['Rng.createFile', 'Rng.createLoop', 'Rng.gridOf', 'Rng.effGrid'],
+    'skyllh/core/livetime.py::Livetime.draw_ontimes': ['Rng.ltCfg'],
+    'skyllh/core/times.py::TimeGenerator.generate_times': ['Rng.ltCfg', 'Rng.trun'],
+}
 
 # recorded values of the constants read from the source (used when extraction fails)
 _RECORDED = dict(sideRight=True, seedStart=1, seedSearchRepaired=True, workerSeedLow=0,
                  workerSeedHigh=2 ** 32, minimizerSeedFromRss=True, minimizerRssForwarded=True,
-                 probSumTestRejectsNaN=True, sigKwargsOverwritesMean=True)
+                 probSumTestRejectsNaN=True, sigKwargsOverwritesMean=True,
+                 reseedAssignsAfterSeeding=True)
 _GEN = {}
 
 
@@ -181,6 +205,19 @@ def _extract():
             raise LookupError('unrecognised form')       # the NaN cases of the correspondence decide
     except Exception:  # noqa
         failed.append('probSumTestRejectsNaN')
+    # RandomStateService.reseed: is `self._seed` written before or after `self.random.seed(...)` was accepted?
+    try:
+        f = _find(_find(_parse('skyllh/core/random.py'), ast.ClassDef, 'RandomStateService'), ast.FunctionDef, 'reseed')
+        is_self_seed = lambda t: isinstance(t, ast.Attribute) and t.attr == '_seed' and isinstance(t.value, ast.Name) and t.value.id == 'self'   # noqa
+        assigns = [k for k, st in enumerate(f.body) if isinstance(st, ast.Assign) and any(is_self_seed(t) for t in st.targets)]
+        seeds = [k for k, st in enumerate(f.body) if isinstance(st, ast.Expr) and isinstance(st.value, ast.Call)
+                 and isinstance(st.value.func, ast.Attribute) and st.value.func.attr == 'seed'
+                 and isinstance(st.value.func.value, ast.Attribute) and st.value.func.value.attr in ('random', '_random')]
+        if len(assigns) != 1 or len(seeds) != 1:
+            raise LookupError('unrecognised form')       # e.g. try/except restoring the label: the correspondence decides
+        vals['reseedAssignsAfterSeeding'] = assigns[0] > seeds[0]
+    except Exception:  # noqa
+        failed.append('reseedAssignsAfterSeeding')
     return vals, failed
 
 
@@ -212,6 +249,8 @@ def generated(ctx):
         'def probSumTestRejectsNaN : Bool := %s' % b(vals['probSumTestRejectsNaN']),
         "/-- generate_signal_events sets sig_kwargs['mean'] on every call (update / assignment), not only when missing -/",
         'def sigKwargsOverwritesMean : Bool := %s' % b(vals['sigKwargsOverwritesMean']),
+        '/-- RandomStateService.reseed writes `_seed` after `self.random.seed(...)` accepted the seed -/',
+        'def reseedAssignsAfterSeeding : Bool := %s' % b(vals['reseedAssignsAfterSeeding']),
         'end Gen.C08', ''])
 
 
@@ -1644,6 +1683,11 @@ _BRANCHES = [
     'drawWin:no-window', 'drawWin:window', 'drawWin:one-sided-window', 'sigMean:no-dict', 'sigMean:dict-without-mean',
     'sigMean:dict-with-mean', 'gridOf:scalar', 'gridOf:r2', 'gridOf:r3', 'gridOf:array', 'extendLabels:reseeded', 'extendLabels:continues-at-position',
     'extendLabels:one-process', 'extendLabels:several-processes', 'extendMany:history', 'extendShared:history',
+    'mk:ok-seeded', 'mk:ok-entropy', 'mk:raises-type', 'mk:raises-value', 'reseed:returns-seeded', 'reseed:returns-entropy',
+    'reseed:raises-type', 'reseed:raises-value', 'rssDraw:advances', 'setRandom:assigned', 'setRandom:raises-type',
+    'generateSignalEvents:raises-value', 'generateSignalEvents:raises-index', 'generateSignalEvents:zero-mean',
+    'generateSignalEvents:injects', 'generatePseudoData:returns', 'generatePseudoData:raises', 'mergeEv:onto-background',
+    'mergeEv:into-empty-slot', 'injectAll:several-datasets',
 ]
 # branches of the model that no valid input reaches, with the theorem that says so
 _UNREACHABLE = {
@@ -1895,7 +1939,245 @@ def _timehist_compare(case, impl, model, count=None):
     return None
 
 
+# ------------------------------------------------------------------------------------------
+# round 7: RandomStateService as an object (argument forms, refused seeds, label vs generator)
+
+_BAD_SEEDS = {'word': 'x', 'list': [1, 2], 'obj': object, 'cplx': 1j, 'empty': ''}
+
+
+def _rss_arg(a, form):
+    """a = None | 'bad' | int; form chooses how it is handed over (only forms that hold the value exactly)"""
+    if a is None:
+        return None
+    if a == 'bad':
+        v = _BAD_SEEDS[form if form in _BAD_SEEDS else 'word']
+        return v() if v is object else v
+    if form == 'npu32' and not 0 <= a < 2 ** 32:
+        form = 'np64'
+    return _seedform(a, form if form in SEED_FORMS else 'int')
+
+
+def _rss_draw_words(r, w, via):
+    """consume exactly w 32-bit words (numpy's bytes(0) would consume one)"""
+    if w % 2 == 0 and (via == 'random' or w == 0):
+        r.random_sample(w // 2)
+    else:
+        r.bytes(4 * w)
+
+
+def _rss_tok(a):
+    return 'n' if a is None else 'b' if a == 'bad' else 'i:%d' % a
+
+
+def _rssobj_req(case):
+    st = '/'.join(('r,' + _rss_tok(x['reseed'])) if 'reseed' in x else
+                  ('x,b' if x['setrandom'] == 'bad' else 'x,%d,%d' % tuple(x['setrandom'])) if 'setrandom' in x else
+                  'd,%d' % x['draw'] for x in case['steps']) or '-'
+    return 'rssobj %d %d %s %s' % (1 if _gen()['reseedAssignsAfterSeeding'] else 0, 2 ** 32, _rss_tok(case['seed']), st)
+
+
+def _rss_exc(e):
+    return 'ERR:type' if isinstance(e, TypeError) else 'ERR:value' if isinstance(e, ValueError) else 'ERR:' + type(e).__name__
+
+
+def _rss_label(v):
+    return 'n' if v is None else str(v) if type(v) is int else 'non-int:%r' % (v,)
+
+
+def _rssobj_impl(case):
+    """-> (answer in the driver's format without gen, the service or None)"""
+    from skyllh.core.random import RandomStateService
+    forms = case.get('forms') or ['int']
+    try:
+        rss = RandomStateService(_rss_arg(case['seed'], forms[0]))
+    except Exception as e:  # noqa
+        return 'ctor:%s steps:- seed:-' % _rss_exc(e), None
+    outs = []
+    for k, x in enumerate(case['steps']):
+        if 'reseed' in x:
+            try:
+                rss.reseed(_rss_arg(x['reseed'], forms[(k + 1) % len(forms)]))
+                o = 'ok'
+            except Exception as e:  # noqa
+                o = _rss_exc(e)
+        elif 'setrandom' in x:
+            try:
+                if x['setrandom'] == 'bad':
+                    rss.random = [np.random.default_rng(1), None, object(), np.random][k % 4]
+                else:
+                    g = np.random.RandomState(x['setrandom'][0])
+                    _rss_draw_words(g, x['setrandom'][1], 'bytes')
+                    rss.random = g
+                o = 'ok'
+            except Exception as e:  # noqa
+                o = _rss_exc(e)
+        else:
+            _rss_draw_words(rss.random, x['draw'], x.get('via'))
+            o = 'ok'
+        outs.append('%s=%s' % (o, _rss_label(rss.seed)))
+    return 'ctor:ok steps:%s seed:%s' % (','.join(outs) or '-', _rss_label(rss.seed)), rss
+
+
+def _rssobj_compare(case, impl, model, count=None):
+    ans, rss = impl
+    head, gen = model.rsplit(' gen:', 1)
+    if count:
+        count('branch:mk:' + ('ok-entropy' if case['seed'] is None and head.startswith('ctor:ok') else
+                              'ok-seeded' if head.startswith('ctor:ok') else 'raises-' + head.split(' ')[0][9:]))
+        for x, o in zip(case['steps'], head.split(' ')[1][6:].split(',') if head.startswith('ctor:ok') else []):
+            if 'setrandom' in x:
+                count('branch:setRandom:' + ('assigned' if o.startswith('ok') else 'raises-type'))
+            elif 'reseed' in x:
+                count('branch:reseed:' + ('returns-entropy' if o.startswith('ok') and x['reseed'] is None else
+                                          'returns-seeded' if o.startswith('ok') else 'raises-' + o.split('=')[0][4:]))
+            else:
+                count('branch:rssDraw:advances')
+    if ans != head:
+        return 'RandomStateService history %r: implementation %s, model %s' % (case, ans, head)
+    if rss is not None and gen.startswith('s:'):
+        _, sd, pos = gen.split(':')
+        if not _same_state(rss.random.get_state(), _state_at(int(sd), int(pos))):
+            return ('RandomStateService history %r: the generator is not on the stream of seed %s at word %s as the model says'
+                    % (case, sd, pos))
+    return None
+
+
+def o_rss_label(ctx, case):
+    """after EVERY step of a history on one service (draws, reseeds incl. refused seeds / forms) the label describes the
+    generator: rss.seed is None or a seed a new service accepts, and that new service, advanced by the words drawn since the
+    last accepted (re)seeding, is in the same state; a reseed that raised changed nothing"""
+    from skyllh.core.random import RandomStateService
+    forms = case.get('forms') or ['int']
+    try:
+        rss = RandomStateService(_rss_arg(case['seed'], forms[0]))
+    except (TypeError, ValueError):
+        return None
+    since = 0
+    for k, x in enumerate(case['steps']):
+        before = (rss.seed, rss.random.get_state())
+        raised = None
+        if 'reseed' in x:
+            try:
+                rss.reseed(_rss_arg(x['reseed'], forms[(k + 1) % len(forms)]))
+                since = 0
+            except (TypeError, ValueError) as e:
+                raised = e
+        else:
+            _rss_draw_words(rss.random, x['draw'], x.get('via'))
+            since += x['draw']
+        hist = [case['seed']] + case['steps'][:k + 1]
+        if raised is not None and (rss.seed != before[0] or not _same_state(rss.random.get_state(), before[1])):
+            return ('RandomStateService history %r: the last reseed raised %s but the service changed: seed %r -> %r'
+                    % (hist, type(raised).__name__, before[0], rss.seed))
+        if rss.seed is None:
+            continue
+        try:
+            ref = RandomStateService(rss.seed)
+        except Exception as e:  # noqa
+            return ('RandomStateService history %r: the service reports seed %r, which no service can be created with (%s)'
+                    % (hist, rss.seed, type(e).__name__))
+        _rss_draw_words(ref.random, since, 'bytes')
+        if not _same_state(rss.random.get_state(), ref.random.get_state()):
+            return ('RandomStateService history %r: the service reports seed %r but its generator is not on that stream'
+                    % (hist, rss.seed))
+    return None
+
+
+# round 7: per-dataset merge of generate_pseudo_data / generate_signal_events (multi-dataset fixture c08_r7_fixtures)
+
+def _pseudo_req(case):
+    nw = 2 * case['pre'] + case['nds'] * (2 + 2 * case['maxev']) + 8 * len(case['keys']) + 16
+    return 'pseudo %s %d %d %d %s %d %d %d=%s' % (case['mode'], case['nds'], case['mean'], case['maxev'], ilist(case['keys']),
+                                                 case['seed'], 2 * case['pre'], case['seed'],
+                                                 ','.join(str(int(x)) for x in _words(case['seed'], nw)))
+
+
+def _pseudo_call(case, rss, ana=None):
+    from harness import c08_r7_fixtures as X
+    ana = ana or X.pseudo_ana(case['nds'])
+    mean = {'int': int, 'float': float, 'np': np.float64}[case.get('mform', 'int')](case['mean'])
+    skw = {'keys': tuple(case['keys'])}
+    mode = case['mode']
+    if mode == 'p':
+        return ana.generate_pseudo_data(rss, mean_n_sig=mean, sig_kwargs=skw, bkg_kwargs={'maxev': case['maxev']})
+    if mode == 's':
+        return ana.generate_signal_events(rss, mean, sig_kwargs=skw)
+    if mode.startswith('l:'):
+        return ana.generate_signal_events(rss, mean, sig_kwargs=skw, n_events_list=[0] * int(mode[2:]))
+    return ana.generate_signal_events(rss, mean, sig_kwargs=skw, events_list=[None] * int(mode[2:]))
+
+
+def _pseudo_fmt(res):
+    ns, nl, el = res
+    evs = ['N' if e is None else 'E' if len(e) == 0 else flist(np.asarray(e['x'], dtype=np.float64)) for e in el]
+    return 'nsig:%d nev:%s ev:%s' % (int(ns), ilist([int(x) for x in nl]), '/'.join(evs))
+
+
+def _pseudo_impl(case):
+    rss = _svc(case['seed'], case['pre'])
+    try:
+        return _pseudo_fmt(_pseudo_call(case, rss)), rss
+    except ValueError:
+        return 'ERR:value', rss
+    except IndexError:
+        return 'ERR:index', rss
+
+
+def _pseudo_compare(case, impl, model, count=None):
+    ans, rss = impl
+    if count:
+        count('branch:generateSignalEvents:' + ('raises-value' if model == 'ERR:value' else 'raises-index' if model == 'ERR:index' else
+                                                'zero-mean' if case['mean'] == 0 else 'injects'))
+        if case['mode'] == 'p':
+            count('branch:generatePseudoData:' + ('raises' if model.startswith('ERR') else 'returns'))
+        if not model.startswith('ERR') and case['mean'] != 0:
+            count('branch:mergeEv:' + ('onto-background' if case['mode'] == 'p' else 'into-empty-slot'))
+            if len(case['keys']) > 1:
+                count('branch:injectAll:several-datasets')
+    if model.startswith('ERR'):
+        return None if ans == model else 'pseudo data %r: implementation %s, model %s' % (case, ans[:200], model)
+    head, words = model.rsplit(' words:', 1)
+    if ans != head:
+        return 'pseudo data %r: implementation %s, model %s' % (case, ans[:300], head[:300])
+    if not _same_state(rss.random.get_state(), _state_at(case['seed'], 2 * case['pre'] + int(words))):
+        return 'pseudo data %r: the service is not at word %d as the model says' % (case, 2 * case['pre'] + int(words))
+    return None
+
+
+def o_pseudo_repro(ctx, case):
+    """generate_pseudo_data / generate_signal_events on a multi-dataset analysis: the same seed gives the same result on a
+    new service after unrelated calls on the SAME analysis object (other strengths, other datasets, other services), the
+    counts describe the events, and with mean 0 the data is the background part of every dataset"""
+    from harness import c08_r7_fixtures as X
+    ana = X.pseudo_ana(case['nds'])
+    try:
+        a = _pseudo_call(case, _svc(case['seed'], case['pre']), ana)
+    except (ValueError, IndexError):
+        return None
+    a_fmt = _pseudo_fmt(a)
+    other = dict(case, mode='p', mean=case['mean'] + 1, keys=list(range(case['nds'])))
+    _pseudo_call(other, _svc(case['seed'] + 1 if case['seed'] < 2 ** 32 - 1 else 0, 1), ana)
+    r2 = _svc(case['seed'], case['pre'])
+    b = _pseudo_call(case, r2, ana)
+    if _pseudo_fmt(b) != a_fmt:
+        return 'generate_%s (%r): a second run with the same seed after an unrelated call on the analysis differs' % (
+            'pseudo_data' if case['mode'] == 'p' else 'signal_events', case)
+    for d, (n, e) in enumerate(zip(a[1], a[2])):
+        if (0 if e is None else len(e)) != n:
+            return 'generate_pseudo_data (%r): n_events_list[%d] = %d but the dataset holds %d events' % (case, d, n, 0 if e is None else len(e))
+    if case['mode'] == 'p' and case['mean'] != 0:
+        z = _pseudo_call(dict(case, mean=0), _svc(case['seed'], case['pre']), ana)
+        for d, (e0, e1) in enumerate(zip(z[2], a[2])):
+            x0, x1 = np.asarray(e0['x']), np.asarray(e1['x'])
+            if len(x1) < len(x0) or x1[:len(x0)].tobytes() != x0.tobytes():
+                return ('generate_pseudo_data (%r): the background events of dataset %d change with the signal strength '
+                        '(same seed, mean 0 vs %d)' % (case, d, case['mean']))
+    return None
+
+
 _NEW = {
+    'pseudo': (_pseudo_req, _pseudo_impl, _pseudo_compare),
+    'rssobj': (_rssobj_req, _rssobj_impl, _rssobj_compare),
     'timehist': (_timehist_req, _timehist_impl, _timehist_compare),
     'extfile': (_extfile_req, _extfile_impl, _extfile_compare),
     'trialsE': (_trialsE_req, _trialsE_impl, _trialsE_compare),
@@ -1972,7 +2254,7 @@ ORACLES = {
     'time_history': o_time_history, 'choice_history': o_choice_history, 'rss_history': o_rss_history,
     'seed_shared': o_seed_shared, 'extend_real': o_extend_real,
     'error_poststate': o_error_poststate, 'choice_nan': o_choice_nan, 'extend_labels': o_extend_labels,
-    'kwargs_history': o_kwargs_history,
+    'kwargs_history': o_kwargs_history, 'rss_label': o_rss_label, 'pseudo_repro': o_pseudo_repro,
     'corr': o_corr,
 }
 
@@ -1982,7 +2264,7 @@ _SIG = {
     'repro': 'C08/do_trials/', 'nonint': 'C08/do_trial/', 'fresh_min': 'C08/do_trial/minimizer-stream-',
     'workers': 'C08/parallelize/worker-seeds-', 'times': 'C08/draw_ontimes/',
     'time_history': 'C08/draw_ontimes/history-', 'choice_history': 'C08/RandomChoice.__call__/history-',
-    'rss_history': 'C08/RandomStateService/history-',
+    'rss_history': 'C08/RandomStateService/history-', 'rss_label': 'C08/RandomStateService.reseed/', 'pseudo_repro': 'C08/generate_pseudo_data/multi-dataset-',
     'error_poststate': 'C08/do_trial/raise-poststate-', 'choice_nan': 'C08/RandomChoice.__init__/accepts-',
     'extend_labels': 'C08/extend_trial_data_file/worker-label-',
     'kwargs_history': 'C08/generate_pseudo_data/reused-option-containers-',
@@ -2015,6 +2297,8 @@ def _mode(name, res):
         return 'in-file'
     if name == 'error_poststate':
         return 'data-shifted'
+    if name == 'rss_label':
+        return 'label-without-stream'
     return 'fails'
 
 
@@ -2358,6 +2642,43 @@ def run(ctx):  # noqa: C901
             'cfg': _gen_cfg(rng), 'steps': steps,
             'sig_kwargs': [{'tag': 1}, {}, {'tag': 1, 'mean': 2}, None][j % 4],
             'bkg_kwargs': [{'tag': 2}, None][j % 2], 'mean_n_bkg_list': [[3.0], None][(j // 2) % 2]}))
+    # round 7: pseudo data of an analysis with several datasets (background per dataset, signal injected through the dict)
+    for j in range(ctx.n(36, 300)):
+        nds = [1, 2, 3, 4][j % 4]
+        keys = rng.sample(range(nds), rng.randrange(1, nds + 1))
+        mode = ['p', 'p', 's', 'p', 'l:%d' % nds, 'e:%d' % nds][j % 6]
+        if j % 12 == 7:
+            keys = keys[:-1] + [nds + rng.randrange(0, 2)]                 # a dataset the analysis does not have
+        if j % 12 == 10:
+            mode = rng.choice(['l:%d', 'e:%d']) % (nds + rng.choice([-1, 1]))    # a list of the wrong length
+        c = {'kind': 'pseudo', 'mode': mode, 'nds': nds, 'mean': 0 if j % 9 == 4 else rng.randrange(1, 6), 'maxev': rng.choice([1, 3, 5]),
+             'keys': keys, 'seed': rng.choice(seeds), 'pre': rng.choice([0, 0, 1, 5]), 'mform': ['int', 'float', 'np'][j % 3]}
+        cases.append(c)
+        oracle_cases.append(('pseudo_repro', {x: v for x, v in c.items() if x != 'kind'}))
+    # round 7: RandomStateService as an object — constructor / reseed with every argument form, refused seeds, draws
+    def _rss_seedval(j):
+        return [rng.choice(seeds), 0, 2 ** 32 - 1, -1, 2 ** 32, -rng.randrange(1, 2 ** 40), 2 ** 32 + rng.randrange(0, 2 ** 20),
+                None, 'bad', rng.randrange(0, 2 ** 32)][j % 10]
+    bad_forms = sorted(_BAD_SEEDS)
+    for j in range(ctx.n(40, 400)):
+        steps = []
+        for _ in range(rng.randrange(0, 7)):
+            if rng.random() < 0.55:
+                steps.append({'reseed': _rss_seedval(rng.randrange(0, 10))})
+            else:
+                steps.append({'draw': rng.choice([0, 1, 2, 3, 8]), 'via': rng.choice(['bytes', 'random'])})
+        if j % 4 == 0:      # a refused seed after draws, then use of the service
+            steps += [{'draw': 2, 'via': 'bytes'}, {'reseed': [-1, 2 ** 32, 'bad'][(j // 4) % 3]}, {'draw': 3, 'via': 'bytes'}]
+        c = {'kind': 'rssobj', 'seed': _rss_seedval(j) if j % 3 else rng.choice(seeds), 'steps': steps,
+             'forms': [rng.choice(SEED_FORMS + bad_forms) for _ in range(3)]}
+        cases.append(c)
+        oracle_cases.append(('rss_label', {x: v for x, v in c.items() if x != 'kind'}))
+        if j % 5 == 0:      # the same history with generators assigned through the public `random` setter (correspondence only)
+            st2 = list(steps)
+            st2.insert(rng.randrange(0, len(st2) + 1), {'setrandom': [rng.choice(seeds), rng.choice([0, 1, 4])]})
+            st2.insert(rng.randrange(0, len(st2) + 1), {'setrandom': 'bad'})
+            st2.append({'draw': 2, 'via': 'bytes'})
+            cases.append(dict(c, steps=st2))
     for cv in (None, -1, 0, 1, 3):
         for lv in (None, -2, 0, 1, 2, 5):
             cases.append({'kind': 'ncpu', 'cfg': cv, 'loc': lv})
@@ -2517,6 +2838,12 @@ def _oracle_cases_for(c):
                                     'steps': [{'via': 'do_trials', 'seed': c['cur'], 'n': max(1, c['n']), 'nsig': int(m)} for m in g]})] if len(g) else []
     if k == 'ncpu':
         return []
+    if k == 'pseudo':
+        return [('pseudo_repro', {x: v for x, v in c.items() if x != 'kind'})]
+    if k == 'rssobj':
+        if any('setrandom' in x for x in c['steps']):
+            return []        # the public setter may detach the label from the generator by design
+        return [('rss_label', {x: v for x, v in c.items() if x != 'kind'})]
     if k == 'timehist':
         return [('time_history', {x: v for x, v in c.items() if x != 'kind'})]
     if k == 'hist':
@@ -2535,7 +2862,7 @@ def _oracle_cases_for(c):
 
 
 MANIFEST = dict(
-    text=('Lean theorems (80, no sorry) on a model of skyllh\'s random handling in which services are references into a store: '
+    text=('Lean theorems (96, no sorry) on a model of skyllh\'s random handling in which services are references into a store: '
           'non-interference of the minimiser with the data side of do_trials for master and workers (with the aliasing counterexample), '
           'fresh default minimiser stream, independence of rows from earlier histories, do_trials/get_ncpu error paths; Minimizer.minimize as '
           'coded (restart loop, stopping reasons, ValueError, words read also when it raises, clipping, restart initials in bounds) and trials '
@@ -2545,7 +2872,11 @@ MANIFEST = dict(
           'order-level version for floats; NaN: counterexample for the pinned sum test, theorem for the repaired one); unused-seed search, '
           'histories of extensions with new or one reused service, create/extend_trial_data_file with grids of signal strengths as the '
           'code builds the file (row count, labels, errors), labels with several processes (statement false: counterexample + partial); '
-          'Livetime/TimeGenerator draws code-shaped (C14\'s drawWin) with an unconditional used-object = fresh-object theorem. Every '
+          'Livetime/TimeGenerator draws code-shaped (C14\'s drawWin) with an unconditional used-object = fresh-object theorem; '
+          'RandomStateService as an object (argument forms, refused seeds, label vs generator: after every history incl. failing reseeds the '
+          'seed property names the stream the generator runs on; counterexample for the pinned assignment order in reseed); the per-dataset '
+          'merge of generate_signal_events / generate_pseudo_data for several datasets (background ++ signal per dataset, counts, disjoint '
+          'consecutive stream segments, error branches). Every '
           'definition is executed by the driver and compared exactly with the real code on every run (RandomChoice incl. argument forms, '
           'dtypes, memory layouts; extend_trial_data_file on all subsets of {0..6}; a real LLHRatioAnalysis through do_trial/do_trials/'
           'parallelize/llhratio.maximize/Minimizer incl. raising trials; time histories on one object); branch counters list untied branches.'),
